@@ -239,6 +239,9 @@ func (g *RelayGen) AllocateListener(conf turn.AllocateListenerConfig) (net.Liste
 	g.mu.Lock()
 	g.Res = append(g.Res, &Resource{Kind: "listener", Addr: l.TCPAddr().String(), User: conf.UserID, At: time.Now(), L: l})
 	g.mu.Unlock()
+	if g.W.Cfg.PlainConns {
+		return plainListener{l}, l.Addr(), nil
+	}
 
 	return l, l.Addr(), nil
 }
@@ -263,8 +266,27 @@ func (g *RelayGen) AllocateConn(conf turn.AllocateConnConfig) (net.Conn, error) 
 	g.mu.Lock()
 	g.Res = append(g.Res, &Resource{Kind: "conn", Addr: la.String(), Peer: ra.String(), User: conf.UserID, At: time.Now(), C: c})
 	g.mu.Unlock()
+	if g.W.Cfg.PlainConns {
+		return plainConn{c}, nil
+	}
 
 	return c, nil
+}
+
+// plainConn / plainListener hide everything but the net.Conn / net.Listener methods of the
+// simulated sockets (no io.ReaderFrom, no io.WriterTo), the way a *tls.Conn or any wrapping
+// transport does: io.Copy then works through its own buffer.
+type plainConn struct{ net.Conn }
+
+type plainListener struct{ net.Listener }
+
+func (l plainListener) Accept() (net.Conn, error) {
+	c, err := l.Listener.Accept()
+	if err != nil {
+		return nil, err
+	}
+
+	return plainConn{c}, nil
 }
 
 // Resources returns a copy of the ledger.
@@ -310,6 +332,9 @@ type Config struct {
 	// MakeGen, when set, supplies the relay address generator (e.g. one of pion/turn's bundled
 	// generators over a simnet.VNet) instead of the harness' ledger generator.
 	MakeGen func(n *simnet.Net) turn.RelayAddressGenerator
+	// PlainConns: TCP connections reach the server (control/data connections, relay-side
+	// connections) as bare net.Conn values without ReadFrom/WriteTo.
+	PlainConns bool
 	// DenyPeerIPs are refused by the permission handler for every client.
 	DenyPeerIPs []string
 	// DenyPerClient refuses peer IPs for specific client addresses ("ip:port" -> peer IPs).
@@ -660,8 +685,12 @@ func NewWorld(cfg Config, rec *Rec, rng *rand.Rand, bubble bool) (*World, error)
 			return nil, err
 		}
 		w.ServerTCP = append(w.ServerTCP, l)
+		var nl net.Listener = l
+		if cfg.PlainConns {
+			nl = plainListener{l}
+		}
 		sc.ListenerConfigs = append(sc.ListenerConfigs, turn.ListenerConfig{
-			Listener: l, RelayAddressGenerator: gen, PermissionHandler: permHandler,
+			Listener: nl, RelayAddressGenerator: gen, PermissionHandler: permHandler,
 		})
 	}
 	srv, err := turn.NewServer(sc)
